@@ -10,6 +10,7 @@ import p_own
 import p_guards
 import p_mapped
 import p_effect
+import p_dynamic
 
 VERIF = os.path.dirname(os.path.dirname(os.path.abspath(__file__)))
 
@@ -248,4 +249,38 @@ PROPS['C16'] = {
     'trusted_base': DEFAULT_TRUSTED_BASE + ['the table of external (std::/libc/builtin) callee effects in rules/effect.py; the entries actually used are listed in coverage.external_callee_table_used',
                                             'member functions returning references/pointers return sub-objects of (or memory owned by) their object'],
     'assumptions': ['user-supplied key/value types and callbacks have race-free const operations', 'each thread owns the iterator objects it advances'],
+}
+
+
+_DYN_ND = 'agreement with an ordered map over all histories (contents of the levels depend on the history), capacity arithmetic, the loser-tree tie-breaking over all interleavings: history/value-level'
+PROPS['C05'] = {
+    'level': 'other', 'rules': p_dynamic.rules_c05,
+    'decides': [
+        'TOMB-GUARD: merge<SkipDeleted=true> (drops a tombstone with its victim) is reached only under `i == used_levels - 1` for the very level i being merged',
+        'MERGE-PRECEDENCE: in merge() the tie branch emits *first1 and advances both cursors, the skip-both branch requires SkipDeleted && first1->deleted(); at both call sites the first range is the local accumulator of newer levels and the second points into the container\'s level(i)',
+        'TOMB-ESCAPE: find()/lower_bound() build an iterator to an item only on a path on which that item\'s deleted() was tested false (and, in lower_bound, its key is not in the set of keys erased in newer levels)',
+        'LOOP-AGREE / KIND: levels are probed from min_level upwards while i < used_levels, empty levels skipped, the per-level probe is FIRST_GE(key) narrowed by pgm(i).search(key) of the same level under has_pgm(i); find() returns at the first level whose probe equals the key',
+    ],
+    'not_decided': _DYN_ND,
+    'explanation': 'Clause-level static claim for C05: the structural conditions whose violation resurrects an erased key or returns a stale value.',
+}
+PROPS['C06'] = {
+    'level': 'other', 'rules': p_dynamic.rules_c06,
+    'decides': [
+        'TOMB-ESCAPE: range() copies an item out only under !deleted(); Iterator::advance moves `current` only to a cursor whose item is not deleted; TOMB-GUARD: range() merges with SkipDeleted=false',
+        'LOOP-AGREE: the four level loops (find, range, lower_bound, Iterator::lazy_initialize) have the same bounds, direction, emptiness skip and index-narrowing idiom',
+        'KIND: lazy_initialize positions every cursor at FIRST_GT(current key); range slices [FIRST_GE(lo), FIRST_GT(hi))',
+        'DERIVED: size(), empty(), count(), begin() call only begin/end/lower_bound/find and read no container state directly',
+    ],
+    'not_decided': _DYN_ND,
+    'explanation': 'Clause-level static claim for C06.',
+}
+PROPS['C15'] = {
+    'level': 'other', 'rules': p_dynamic.rules_c15,
+    'decides': [
+        'INDEX-SYNC: in pairwise_merge, insert and the bulk-load constructor every mutation of level(x), x not the buffer level, is followed on all paths (before the function returns or moves to the next level) by `if (has_pgm(x)) pgm(x) = ...`, '
+        'with PGMType() when the level was emptied and PGMType(level(x).begin(), level(x).end()) when it was refilled',
+    ],
+    'not_decided': 'sortedness of the levels, capacity bounds, "no data beyond the used levels": history and arithmetic',
+    'explanation': 'Clause-level static claim for C15 (the index-in-sync clause): a stale or missing per-level index is exactly the violation of the last clause of the property, while answers stay right for most keys.',
 }
